@@ -629,7 +629,7 @@ class PTA:
                 if o.kind in ('inst', 'ext_inst') and o.cls is not None:
                     setter = o.cls.lookup_setter(target.attr)
                     if setter is not None:
-                        self.bind_call_objs(setter, o, [v], {}, st)
+                        self.bind_call(setter, o, [v], {}, st)
                         continue
                 if o.kind == 'module':
                     m = o.extra[1]
